@@ -12,6 +12,9 @@ pid, which = sys.argv[1], sys.argv[2]
 src = "/tmp/seed/%s" % pid
 if "--src" in sys.argv:
     src = sys.argv[sys.argv.index("--src") + 1]
+suffix = which.lower()
+if "--suffix" in sys.argv:
+    suffix = sys.argv[sys.argv.index("--suffix") + 1]
 patch = os.path.join(src, "SEED_%s.patch" % which)
 demo = os.path.join(src, "SEED_%s_demo.patch" % which)
 note = os.path.join(src, "SEED_%s.md" % which)
@@ -33,7 +36,7 @@ def tests(cwd):
     return passed, failed, failing, compile_err, r.stdout
 
 d = tempfile.mkdtemp(prefix="cwseed.")
-res = {"property": pid, "seed": which, "source": "independent sub-agent (given only the property text and a scratch worktree)"}
+res = {"property": pid, "seed": which, "round": 2 if "seed2" in src else 1, "source": "independent sub-agent (given only the property text and a scratch worktree)"}
 try:
     repo = os.path.join(d, "repo")
     subprocess.check_call(["rsync", "-a", "--exclude", "target", "--exclude", ".git", "/repo/", repo + "/"])
@@ -74,7 +77,7 @@ try:
     det = [l for l in r.stdout.splitlines() if l.startswith(("--- ", "    ")) and not l.startswith("    rule:")]
     res["diagnostics"] = det[:14]
     if ok:
-        out = os.path.join(V, "seeded", pid + which.lower())
+        out = os.path.join(V, "seeded", pid + suffix)
         os.makedirs(out, exist_ok=True)
         shutil.copy(patch, os.path.join(out, "patch.diff"))
         shutil.copy(demo, os.path.join(out, "demo.diff"))
